@@ -18,6 +18,21 @@ rows = []
 for m in sorted(glob.glob(os.path.join(V, 'seeded', '*', 'meta.json'))):
     d = json.load(open(m))
     rows.append('| %s | %s | %s | %s | %s |\n' % (d.get('id', os.path.basename(os.path.dirname(m))), ', '.join(d.get('files', [])), esc(d.get('what', ''))[:300], esc(d.get('needs', ''))[:260], esc(d.get('caught_by', ''))))
+import collections
+_by = collections.OrderedDict()
+for m in sorted(glob.glob(os.path.join(V, 'seeded', '*', 'meta.json'))):
+    d = json.load(open(m))
+    pid = d.get('property', os.path.basename(os.path.dirname(m))[:3])
+    r = _by.setdefault(pid, [0, 0, 0])
+    r[0] += 1
+    cb = d.get('caught_by', '')
+    if 'initially MISSED' in cb or 'initially no concrete' in cb or 'MISSED' in cb.split(';')[0]:
+        r[1] += 1
+    if 'no-failing-input-found' in cb:
+        r[2] += 1
+t_seedstats = ('| property | stored changes | missed by the check as it was when the change arrived (check strengthened afterwards, change now caught) | reported without a concrete input |\n|---|---|---|---|\n'
+               + ''.join('| %s | %d | %d | %d |\n' % (k, v[0], v[1], v[2]) for k, v in sorted(_by.items()))
+               + '| all | %d | %d | %d |\n' % tuple(sum(v[i] for v in _by.values()) for i in range(3)))
 t_seeded = '| id | files | change | needs, to manifest | caught by |\n|---|---|---|---|---|\n' + ''.join(rows)
 man = json.load(open(os.path.join(V, 'MANIFEST.json')))
 t_status = '| id | level claimed | what is proved and what ties it to the code (MANIFEST level text) | limits (level note) |\n|---|---|---|---|\n' + ''.join(
@@ -25,7 +40,7 @@ t_status = '| id | level claimed | what is proved and what ties it to the code (
 t_status += '\nNot claimed: ' + '; '.join('%s (%s)' % (n['property_id'], esc(n['reason'])) for n in man.get('not_applicable', [])) + '\n'
 p = os.path.join(V, 'DESIGN.md')
 s = open(p).read()
-for name, tbl in (('FIXED', t_fixed), ('KNOWN', t_known), ('SEEDED', t_seeded), ('STATUS', t_status)):
+for name, tbl in (('FIXED', t_fixed), ('KNOWN', t_known), ('SEEDED', t_seeded), ('STATUS', t_status), ('SEEDSTATS', t_seedstats)):
     b, e = '<!-- BEGIN:%s -->' % name, '<!-- END:%s -->' % name
     if b in s:
         s = s[:s.index(b) + len(b)] + '\n' + tbl + s[s.index(e):]
